@@ -383,7 +383,9 @@ check:
 	for _, pv := range t.Pattern {
 		if !seenPatterns[pv.Name] {
 			seenPatterns[pv.Name] = true
-			y.Pattern = append(y.Pattern, pv.Name)
+			// y.Pattern is shared with the typedef this type is
+			// based on (y is a shallow copy); never append in place.
+			y.Pattern = append(y.Pattern[:len(y.Pattern):len(y.Pattern)], pv.Name)
 		}
 	}
 
@@ -408,7 +410,7 @@ check:
 		checkPattern(ext, ext.Argument, syntax.POSIX)
 		if !seenPOSIXPatterns[ext.Argument] {
 			seenPOSIXPatterns[ext.Argument] = true
-			y.POSIXPattern = append(y.POSIXPattern, ext.Argument)
+			y.POSIXPattern = append(y.POSIXPattern[:len(y.POSIXPattern):len(y.POSIXPattern)], ext.Argument)
 		}
 	}
 
